@@ -709,6 +709,108 @@ def rule_cover(ctx):
     return res.finish(1)
 
 
+def rule_conserve(ctx):
+    """Every point handed to the ball-tree builder ends up in exactly one leaf.  After the points were cut into two parts
+    (`partition`), a node that is built from one part only - a leaf whose `points` mentions one of them, a branch that
+    does not hand each of them to a recursive build - loses the points of the other part: they are in no leaf, and no
+    query can return them."""
+    res = RuleResult("R-C07-conserve", "in the ball-tree builder every part of a partition of the points reaches a node: a leaf holds all parts, a branch hands each part to a recursive build")
+    F = ctx.facts()
+    n = 0
+    for fn in nn_fns(F):
+        c = fn["crate"]
+        parts = None
+        part_ln = None
+        for y in walk(fn["body"]):
+            if y.get("k") == "LetStmt" and y.get("init") is not None and y["pat"].get("k") == "Tuple":
+                i0 = peel_refs(y["init"])
+                if i0.get("k") == "Call" and (c.dfn(strip(i0["f"]).get("def")) or {}).get("name") == "partition":
+                    parts = [b for b in pat_bindings(y["pat"]) if "Vec<" in (c.ty(b.get("t")) or "")]
+                    part_ln = y.get("ln") or 0
+        if not parts or len(parts) < 2:
+            continue
+        n += 1
+        key = fn_key(fn)
+        names = {b["local"]: b["name"] for b in parts}
+        res.instance("%s : parts %s" % (key, ", ".join(sorted(names.values()))))
+        bad = None
+        recursed = set()
+        for y in walk(fn["body"]):
+            if y.get("k") == "Call" and (c.dfn(strip(y["f"]).get("inst", strip(y["f"]).get("def"))) or {}).get("name") == fn["d"]["name"]:
+                for a in y["args"]:
+                    for z in walk(a):
+                        if z.get("k") == "Path" and z.get("local") in names:
+                            recursed.add(z["local"])
+        for y in walk(fn["body"]):
+            if y.get("k") != "Struct" or (y.get("ln") or 0) < part_ln:
+                continue
+            vn = (c.dfn(y.get("def")) or {}).get("name")
+            if vn == "Leaf":
+                fld = next((f_["e"] for f_ in y.get("fields") or [] if f_["name"] == "points"), None)
+                used = set(z["local"] for z in walk(fld) if z.get("k") == "Path" and z.get("local") in names) if fld is not None else set()
+                if used and used != set(names):
+                    missing = sorted(names[l] for l in set(names) - used)
+                    bad = (y, "a leaf built after the partition holds `%s` only: the points of `%s` are in no leaf" % (", ".join(sorted(names[l] for l in used)), ", ".join(missing)))
+            elif vn == "Branch":
+                if recursed != set(names):
+                    missing = sorted(names[l] for l in set(names) - recursed)
+                    bad = (y, "a branch is built although `%s` is not handed to a recursive build" % ", ".join(missing))
+        if bad is None:
+            res.ok()
+        else:
+            res.violate("%s : points-dropped" % key, bad[1] + ": no query can return them", fn_loc(fn, bad[0].get("ln")))
+    if n < 1:
+        res.missing_anchor("a builder in linfa-nn that partitions its points")
+    return res.finish(1)
+
+
+def rule_staletop(ctx):
+    """The pruning tests of a k-nearest search compare with the *current* worst candidate (`out.peek()`).  A copy of that value
+    taken before a loop that pushes into / pops from the same heap is the worst candidate of an earlier state: once the heap
+    changed, points are rejected (or kept) against a bound that no longer holds."""
+    from .layout import with_parents
+    res = RuleResult("R-C07-staletop", "no value read off the top of a heap (peek / last / first) before a loop is used inside that loop after the loop pushed to or popped from the same heap")
+    F = ctx.facts()
+    n = 0
+    for fn in nn_fns(F):
+        c = fn["crate"]
+        key = fn_key(fn)
+        tops = []
+        for y, anc in with_parents(fn["body"]):
+            if y.get("k") == "LetStmt" and y.get("init") is not None and y["pat"].get("k") == "Bind":
+                src = None
+                for z in walk(y["init"]):
+                    if z.get("k") == "MethodCall" and z["name"] in ("peek", "last", "first") and not z["args"]:
+                        r0 = peel_refs(z["recv"])
+                        if r0.get("k") == "Path" and "local" in r0:
+                            src = r0
+                if src is not None:
+                    tops.append((y, src, anc))
+        if not any(z.get("k") == "MethodCall" and z["name"] in ("peek", "peek_mut") for z in walk(fn["body"])):
+            continue
+        n += 1
+        res.instance("%s : %d copies of a heap top" % (key, len(tops)))
+        bad = None
+        for y, src, anc in tops:
+            v = y["pat"]["local"]
+            for lp, lanc in with_parents(fn["body"]):
+                if lp.get("k") != "Loop" or any(a is lp for a in anc):
+                    continue          # the copy is taken inside this loop: refreshed every iteration
+                if (lp.get("ln") or 0) < (y.get("ln") or 0):
+                    continue
+                uses = any(z.get("k") == "Path" and z.get("local") == v for z in walk(lp))
+                muts = [z for z in walk(lp) if z.get("k") == "MethodCall" and z["name"] in ("push", "pop", "peek_mut", "clear", "insert", "remove", "append", "extend") and peel_refs(z["recv"]).get("local") == src["local"]]
+                if uses and muts:
+                    bad = (y, src, muts[0])
+        if bad is None:
+            res.ok()
+        else:
+            res.violate("%s : stale-heap-top:%s" % (key, bad[0]["pat"].get("name")), "`%s` is read off the top of `%s` before a loop that calls `%s.%s(..)` (line %s) and is used inside that loop: after the first change of the heap it is no longer its top" % (bad[0]["pat"].get("name"), bad[1].get("name"), bad[1].get("name"), bad[2]["name"], bad[2].get("ln")), fn_loc(fn, bad[0].get("ln")))
+    if n < 1:
+        res.missing_anchor("functions of linfa-nn that look at the top of a heap")
+    return res.finish(1)
+
+
 rule_memorder = layout.make_rule("R-C07-memorder", "raw memory-order buffers (as_slice_memory_order, into_raw_vec, as_ptr) of stored point batches are used by position only behind an is_standard_layout() test", lambda f: f["d"]["krate"] == "linfa_nn", "linfa-nn")
 
 def rule_noint(ctx):
@@ -928,5 +1030,5 @@ def _address_rule():
 
 def rules(tier):
     from . import precision
-    return [_address_rule(), rule_unit, rule_sib, rule_edge, rule_degree, rule_memorder, rule_cover, rule_direct,
+    return [_address_rule(), rule_unit, rule_sib, rule_edge, rule_degree, rule_memorder, rule_cover, rule_conserve, rule_staletop, rule_direct,
             precision.make_rule("R-C07-precision", lambda f: f["d"]["krate"] == "linfa_nn", 30, "linfa-nn"), rule_noint, rule_dispatch, rule_capacity, rule_convpair, rule_signedpower]
